@@ -34,6 +34,7 @@ func (h *noAllocHandler) HandleObjectValue(_, data []byte) (int, error) {
 }
 
 type allocCase struct {
+	between bool // between warm-up and measurement, every buffer-taking function runs on short documents with the same buffer
 	fn   string
 	data []byte
 	segs []seg
@@ -51,6 +52,17 @@ func runAlloc(sw *shardWriter, j *jb, c allocCase, st *genStats) {
 		w := expandSegs(c.warm)
 		rjson.SkipValue(w, &buf)
 		rjson.SkipValue(w, &innerBuf)
+	}
+	if c.between && c.warm != nil {
+		for _, short := range [][]byte{[]byte("1"), []byte(`"s"`), []byte("[]"), []byte(`{"a":[1]}`), []byte("[1,"), []byte("x"), {}} {
+			for _, b := range []*rjson.Buffer{&buf, &innerBuf} {
+				rjson.Valid(short, b)
+				rjson.SkipValue(short, b)
+				rjson.SkipValueFast(short, b)
+				rjson.HandleArrayValues(short, zeroArr, b)
+				rjson.HandleObjectValues(short, zeroObj, b)
+			}
+		}
 	}
 	dst := make([]byte, c.pre, c.cap)
 	h0 := &noAllocHandler{buf: &innerBuf, mode: 0}
@@ -162,6 +174,8 @@ func runAlloc(sw *shardWriter, j *jb, c allocCase, st *genStats) {
 	} else {
 		j.raw(`[]`)
 	}
+	j.raw(`,"between":`)
+	j.b01(c.between)
 	j.raw(`,"usesbuf":`)
 	j.b01(c.warm != nil)
 	j.raw(`,"usesdst":`)
@@ -275,10 +289,14 @@ func genAllocC19(c *genCtx, sw *shardWriter, j *jb) {
 		d := dg.container("[{"[c.rng.Intn(2)])
 		docs = append(docs, dcase{[]seg{{d, 1}}, nestSegs("[", "", "]", 8+c.rng.Intn(3))})
 	}
-	for _, dc := range docs {
+	for di, dc := range docs {
 		d := expandSegs(dc.segs)
 		for _, fn := range []string{"SkipValue", "SkipValueFast", "Valid"} {
 			run(fn, d, dc.segs, dc.warm, 0, 0)
+			if di%2 == 0 {
+				setCurrent("alloc between " + fn)
+				runAlloc(sw, j, allocCase{fn: fn, data: d, segs: dc.segs, warm: dc.warm, between: true}, c.st)
+			}
 		}
 		f := firstNonWS(d)
 		if f == '[' {
@@ -351,7 +369,41 @@ func arrWithElems(n int) []byte {
 	return []byte("[" + strings.TrimSuffix(strings.Repeat("1,", n), ",") + "]")
 }
 
-var memShapes = []memShape{
+// bigThenSmall: a large first child followed by n small later children, in every combination of
+// outer container, wrapping of the large child and kind of the small children.
+func bigThenSmallShapes() []memShape {
+	var out []memShape
+	type wrap struct{ name, pre, post string }
+	bigs := []struct {
+		name string
+		mk   func(n int) []byte
+	}{{"bigobj", objWithKeys}, {"bigarr", arrWithElems}}
+	wraps := []wrap{{"bare", "", ""}, {"in_array", "[", "]"}, {"in_object", `{"w":`, "}"}, {"in_array_in_object", `{"w":[`, "]}"}}
+	smalls := []string{"{}", "[]", `{"a":{}}`, `[{}]`, `{"a":[]}`, `{"a":1}`, `[[]]`}
+	for _, outer := range []string{"A", "O"} {
+		for _, bg := range bigs {
+			for _, w := range wraps {
+				for si, sm := range smalls {
+					if (len(out)+si)%3 != 0 && !(w.name == "in_array" && bg.name == "bigobj") {
+						continue // a third of the combinations (all of them for the wrapped big object)
+					}
+					outer, bg, w, sm := outer, bg, w, sm
+					name := "bts_" + outer + "_" + bg.name + "_" + w.name + "_then_" + sm
+					out = append(out, memShape{name, func(n int) []seg {
+						first := append(append([]byte(w.pre), bg.mk(n)...), w.post...)
+						if outer == "A" {
+							return []seg{{[]byte("["), 1}, {first, 1}, {[]byte("," + sm), n}, {[]byte("]"), 1}}
+						}
+						return []seg{{[]byte(`{"first":`), 1}, {first, 1}, {[]byte(`,"k":` + sm), n}, {[]byte("}"), 1}}
+					}})
+				}
+			}
+		}
+	}
+	return out
+}
+
+var memShapes = append(bigThenSmallShapes(), []memShape{
 	{"ints", func(n int) []seg { return []seg{{[]byte("["), 1}, {[]byte("1,"), n}, {[]byte("1]"), 1}} }},
 	{"empty_arrays", func(n int) []seg { return []seg{{[]byte("["), 1}, {[]byte("[],"), n}, {[]byte("[]]"), 1}} }},
 	{"empty_objects", func(n int) []seg { return []seg{{[]byte("["), 1}, {[]byte("{},"), n}, {[]byte("{}]"), 1}} }},
@@ -384,7 +436,7 @@ var memShapes = []memShape{
 		return []seg{{[]byte("["), 1}, {[]byte("1.00000000000000011102230246251565404236316680908203125,"), n}, {[]byte("0]"), 1}}
 	}},
 	{"escapes_wide_in_objects", func(n int) []seg { return []seg{{[]byte("{"), 1}, {[]byte(`"\t":"\n",`), n}, {[]byte(`"z":1}`), 1}} }},
-}
+}...)
 
 type memFn struct {
 	name string
@@ -451,7 +503,37 @@ func memHists() []memHist {
 	sk := func(r *rjson.ValueReader, b *rjson.Buffer, d []byte) { rjson.SkipValue(d, b) }
 	bigObj := objWithKeys(20000)
 	bigArr := arrWithElems(20000)
-	return []memHist{
+	var combos []memHist
+	fns := []struct {
+		name string
+		fn   func(r *rjson.ValueReader, b *rjson.Buffer, d []byte)
+	}{{"ReadValue", rv}, {"ReadObject", ro}, {"ReadArray", ra}}
+	firsts := []struct {
+		name string
+		doc  []byte
+	}{{"array_of_big_object", append(append([]byte("["), bigObj...), ']')}, {"object_of_big_array", append(append([]byte(`{"a":`), bigArr...), '}')},
+		{"array_of_big_array", append(append([]byte("["), bigArr...), ']')}, {"object_of_big_object", append(append([]byte(`{"a":`), bigObj...), '}')}}
+	smalls := []string{`{}`, `[]`, `{"a":{"b":1}}`, `[[1]]`, `{"a":[1]}`, `[{"a":1}]`, `{"a":{}}`, `[{}]`, `{"a":{"b":1},"c":}`, `[[1],`}
+	for _, f1 := range firsts {
+		for fi, f := range fns {
+			for si, sm := range smalls {
+				if (fi+si)%2 == 0 {
+					f1, f, sm := f1, f, sm
+					first := func(r *rjson.ValueReader, b *rjson.Buffer, d []byte) {
+						if bytes.Equal(d, f1.doc) {
+							r.ReadValue(d)
+							r.ReadArray(d)
+							r.ReadObject(d)
+							return
+						}
+						f.fn(r, b, d)
+					}
+					combos = append(combos, memHist{f1.name + "_then_" + sm + "(" + f.name + ")", f1.doc, []byte(sm), first})
+				}
+			}
+		}
+	}
+	return append(combos, []memHist{
 		{"big_object_then_small_ok_objects(ReadValue)", bigObj, []byte(`{"a":1}`), rv},
 		{"big_object_then_small_failing_objects(ReadValue)", bigObj, []byte(`{"a":1,}`), rv},
 		{"big_object_then_small_failing_objects(ReadObject)", bigObj, []byte(`{"a":}`), ro},
@@ -461,7 +543,7 @@ func memHists() []memHist {
 		{"nested_big_then_small_failing(ReadValue)", append(append([]byte(`{"a":[`), bigObj...), []byte(`]}`)...), []byte(`{"a":[{"b":1,}]}`), rv},
 		{"deep_document_then_shallow(SkipValue)", expandSegs(nestSegs("[", "", "]", 9000)), []byte(`[1,[2]]`), sk},
 		{"escaped_long_string_then_small_strings(ReadValue)", []byte(`["\n` + strings.Repeat("x", 100000) + `"]`), []byte(`["\n"]`), rv},
-	}
+	}...)
 }
 
 func runMemHist(j *jb, h memHist, m int) {
@@ -539,7 +621,8 @@ func init() {
 				warm = append(warm, seg{anyBytes(p[0]), int(p[1].(float64))})
 			}
 		}
-		runAlloc(nil, &j, allocCase{fn: ev["fn"].(string), data: d, segs: segs, warm: warm, pre: int(ev["dstlen"].(float64)), cap: int(ev["dstcap"].(float64))}, newStats())
+		btw, _ := ev["between"].(float64)
+		runAlloc(nil, &j, allocCase{fn: ev["fn"].(string), data: d, segs: segs, warm: warm, pre: int(ev["dstlen"].(float64)), cap: int(ev["dstcap"].(float64)), between: btw == 1}, newStats())
 		return append([]byte{}, j.b...), nil
 	}
 }
